@@ -148,7 +148,7 @@ class _Clock:
         return self._now()
 
     def time(self):
-        return _EPOCH + self._now()
+        return _EPOCH + self._now() + WALL_SHIFT[0]
 
     __name__ = "time"
 
@@ -162,6 +162,8 @@ _TIME_MODULES = ["geckolib.driver.udp_protocol_handler", "geckolib.async_locator
 
 
 _EPOCH = 1_700_000_000.0       # wall-clock reading at virtual time 0 (any fixed instant)
+WALL_SHIFT = [0.0]             # the WALL clock may be stepped (NTP correction, a user setting the date) while the monotonic one runs on:
+                               # a harness sets WALL_SHIFT[0] to move time.time() / datetime.now() without touching time.monotonic()
 
 
 def _virtual_datetime(now):
@@ -171,11 +173,11 @@ def _virtual_datetime(now):
     class VDateTime(_dt.datetime):
         @classmethod
         def now(cls, tz=None):
-            return _dt.datetime.fromtimestamp(_EPOCH + now(), tz)
+            return _dt.datetime.fromtimestamp(_EPOCH + now() + WALL_SHIFT[0], tz)
 
         @classmethod
         def utcnow(cls):
-            return _dt.datetime.fromtimestamp(_EPOCH + now(), _dt.timezone.utc).replace(tzinfo=None)
+            return _dt.datetime.fromtimestamp(_EPOCH + now() + WALL_SHIFT[0], _dt.timezone.utc).replace(tzinfo=None)
     return VDateTime
 
 
